@@ -212,9 +212,10 @@ def gen_netlist(rng, polarity='mixed', icmode='none', srckw='same', extras=True,
     # a pure DC analysis of series capacitors / parallel inductors is not well
     # posed (floating nodes, loops of shorts): unless some element carries an
     # initial condition (initial-value analysis) make the sources steps
-    has_ic = any(l.split()[0][0] in 'CL' and len(l.split()) > 4 for l in b.lines)
-    reactive = any(l.split()[0][0] in 'CL' for l in b.lines)
-    if reactive and not has_ic:
+    # (an initial condition does not help: the only component that carries one may be removed as dangling,
+    #  which turns an initial-value analysis into a DC analysis)
+    reactive = any(l.split()[0][0] in 'CL' or (l.split()[0][0] in 'ZY' and 's' in l.split('{')[-1]) for l in b.lines)
+    if reactive:
         out = []
         for l in b.lines:
             t = l.split()
